@@ -222,20 +222,30 @@ class Prerequisite:
         self._cached_satisfied = None
         if '|' in expr:
             # Make a Python expression so we can eval() the logic.
-            for t_output in self._satisfied:
-                # Use '\b' in case one task name is a substring of another
-                # and escape special chars ('.', timezone '+') in task IDs.
-                msg = self.MESSAGE_TEMPLATE % t_output
-                if msg[0] == '-':
-                    # -ve cycles: \b needs to be to the right of the `-` char.
-                    pattern = fr"-\b{re.escape(msg[1:])}\b"
-                else:
-                    pattern = fr"\b{re.escape(msg)}\b"
-                expr = re.sub(
-                    pattern,
-                    self.SATISFIED_TEMPLATE % t_output,
-                    expr
-                )
+            # Each operand of the expression is a task output message. Strip
+            # whitespace around the operators so that every operand is
+            # delimited by an operator, a parenthesis or the end of the
+            # string, then replace whole operands only, in a single pass.
+            # (NOTE: "\b" is not good enough: one message can be found
+            # inside another ("1/foo out" in "1/foo out-2", "1/x succeeded"
+            # in "-1/x succeeded"), and messages and cycle points can start or
+            # end with non-word characters.)
+            expr = re.sub(r'\s*([|&()])\s*', r'\1', expr.strip())
+            messages = {
+                self.MESSAGE_TEMPLATE % t_output: t_output
+                for t_output in self._satisfied
+            }
+            pattern = '|'.join(
+                re.escape(msg)
+                for msg in sorted(messages, key=len, reverse=True)
+            )
+            expr = re.sub(
+                rf'(?<![^|&(])(?:{pattern})(?![^|&)])',
+                lambda match: (
+                    self.SATISFIED_TEMPLATE % messages[match.group(0)]
+                ),
+                expr
+            )
 
             self.conditional_expression = expr
 
